@@ -1428,7 +1428,8 @@ class Collection(object):
             self.delete_one(query)
         else:
             updated = self._update(query, update, upsert)
-            if updated['upserted'] is not None:
+            if updated['n'] and not updated['updatedExisting']:
+                # an upsert happened (its _id may be falsy or even null)
                 query = {'_id': updated['upserted']}
 
         if return_document is ReturnDocument.AFTER or kwargs.get('new'):
